@@ -211,13 +211,13 @@ func (d *disconnectHandler) handleGracePeriodExpired() {
 			)...,
 		)
 
-		d.election.becomeFollower()
+		wasLeader := d.election.becomeFollower()
 
 		d.election.mu.RLock()
 		onDemote := d.election.onDemote
 		d.election.mu.RUnlock()
 
-		if onDemote != nil {
+		if wasLeader && onDemote != nil {
 			log.Info("leader_demoted",
 				append(d.election.logWithContext(d.election.ctx),
 					zap.String("reason", "connection_loss"),
